@@ -122,6 +122,8 @@ def cases(tier, inst):
         for hh, hc in ((1.0, 1.0), (0.5, 2.0)):
             for ui in (0, 1):
                 yield {"streams": ms, "htc": [hh, hc], "uset": ui, "inst": list(inst), "cost": (hh != 1.0 and ui == 1)}
+        # area targeting requested WITHOUT the balanced composite curves as a graph (the two options share code)
+        yield {"streams": ms, "htc": [0.5, 2.0], "uset": 0, "inst": list(inst), "no_bcc": True}
     if tier == "quick":
         for ms in P.stream_multisets(inst, K, 3, cps=(1,), dts=(1,), iso=False, min_n=3):
             if len({A.kind_of(s) for s in ms}) == 2:
@@ -139,6 +141,8 @@ def build(case):
     opts = {"DO_AREA_TARGETING": True}
     if case.get("cost"):
         opts.update(COST_OPTS)
+    if case.get("no_bcc"):
+        opts["DO_BALANCED_CC"] = False
     prob = A.problem(streams, ["A"] * len(streams), options=opts)
     for sd, st in zip(prob["streams"], streams):
         sd["htc"] = case["htc"][0] if A.kind_of(st) == "H" else case["htc"][1]
